@@ -1,3 +1,5 @@
+//go:build verif
+
 package checks
 
 // C15 — discovery piece: the genuine packet decoder and a genuine udp transport running over
